@@ -1,6 +1,6 @@
 import PercevalModel.Proto
 import PercevalModel.Model.C02
-import PercevalModel.Lemmas.FockComp
+import PercevalModel.Lemmas.C02Perm
 import PercevalModel.Found.Memo
 import PercevalModel.Found.Perm
 
@@ -36,11 +36,6 @@ def stepOfJson (M : ℕ) (j : Json) : Except String (Step GQ) := do
     if rows.any (·.size ≠ k) then throw "bad matrix"
     if r0 + k > M then throw "component outside the circuit"
     return .block ⟨k, r0, matOfRows k rows⟩
-
-/-- the full-size matrix of one element (`embed`; a PERM is the block `u[σ j, j] = 1`) -/
-def stepMatrix (M : ℕ) : Step GQ → Matrix (Fin M) (Fin M) GQ
-  | .block c => PM.embed M c.r0 c.B
-  | .perm r0 σ => PM.embed M r0 (permMatL (R := GQ) σ.length σ)
 
 def handle (j : Json) : Json :=
   match (do
